@@ -11,6 +11,7 @@ Targets: CodeGenerator._generate_with_line_buffer, SupportGenerator._copy_header
 from __future__ import annotations
 
 import io
+import os
 import itertools
 import pathlib
 import re
@@ -350,12 +351,40 @@ def run(ctx: core.Ctx):
                     for sig, what in check_linebuf(ctx, {"text": text, "cuts": [c], "pps": spec}):
                         ctx.fail(sig, what, {"text": text, "cuts": [c], "pps": spec, "target": "linebuf"})
     ctx.extra["exhaustive_subdomain"] = f"all texts len<= {L} over {{a,space,CR,LF}} x every single cut x 5 processor lists"
+    if not ctx.quick or os.environ.get("VF_C15_FUZZ"):
+        fuzz_campaign(ctx, int(os.environ.get("VF_C15_FUZZ_RUNS", "2000000")))
     ctx.require("lb.cut_in_crlf", 50)
     ctx.require("e2e", 100)
     # tag replays with their target
     for sig, ent in ctx.failures.items():
         if isinstance(ent["replay"], dict) and "target" not in ent["replay"]:
             ent["replay"]["target"] = sig.split("|")[0]
+
+
+def fuzz_campaign(ctx: core.Ctx, runs: int):
+    """Coverage-guided extra campaign (atheris/libFuzzer, vf/fuzz_c15.py): bounded by -runs; findings are re-run through the
+    plain replay path before they are reported; an unavailable fuzzer is recorded, not an error."""
+    import json
+    import subprocess
+    import sys
+
+    out = pathlib.Path(tempfile.mkdtemp(prefix="vf-c15fz-"))
+    try:
+        env = dict(os.environ, PYTHONPATH=f"{core.REPO}/src:{core.VERIF}:{core.VERIF}/.deps", PYTHONHASHSEED="0")
+        p = subprocess.run([sys.executable, "-m", "vf.fuzz_c15", str(out), str(runs), str(ctx.seed)], cwd=str(core.VERIF), env=env, capture_output=True, text=True)
+        stats_file = out / "stats.json"
+        if not stats_file.exists():
+            ctx.extra["atheris"] = "not run: " + (p.stderr[-300:] or "no output")
+            return
+        stats = json.loads(stats_file.read_text())
+        ctx.bulk(stats["executions"], [], {"fuzz.atheris.executions": stats["executions"], "fuzz.atheris.multi_chunk": stats["nontrivial"]})
+        ctx.extra["atheris"] = {"runs_requested": runs, "executions_with_processors": stats["executions"], "multi_chunk": stats["nontrivial"], "corpus_files": len(list((out / "corpus").glob("*")))}
+        for f in sorted(out.glob("failure-*.json")):
+            doc = json.loads(f.read_text())
+            for sig, what in check_linebuf(ctx, doc["case"]):  # confirm outside of the fuzzer
+                ctx.fail(sig, "[found by atheris] " + what, doc["case"])
+    finally:
+        shutil.rmtree(out, ignore_errors=True)
 
 
 def replay(ctx: core.Ctx, case):
